@@ -521,7 +521,7 @@ def make_stubs(extra=None):
     s = dict(BASE)
     for k, v in INTRINSICS.items():
         s['intr:' + k] = v
-    s['prefix'] = default_prefix_stubs()
+    s['prefix'] = default_prefix_stubs() + ext_prefixes()
     if extra:
         for k, v in extra.items():
             if k == 'prefix':
@@ -1473,3 +1473,91 @@ BASE.update({'github.com/consensys/gnark/frontend.Compile': frontend_Compile, 'g
              'github.com/reilabs/gnark-lean-extractor/v2/abstractor.Call': abstractor_Call(0), 'github.com/reilabs/gnark-lean-extractor/v2/abstractor.Call1': abstractor_Call(1),
              'github.com/reilabs/gnark-lean-extractor/v2/abstractor.CallVoid': abstractor_Call(0),
              'opaque:api.AssertIsEqual': lambda ex, st, a, c: None})
+
+
+# ------------------------------------------------------------------------------------------ goroutines / channels / http.Server (GOSYM-C: event extraction)
+def cev(st, kind, *payload, pos=None):
+    st.events.append(('cev', getattr(st, 'tid', 0), kind) + tuple(payload) + (pos,))
+
+
+def chan_make(ex, st, ins):
+    c = Chan(new_oid())
+    cev(st, 'makechan', c.cid, pos=ins.get('pos'))
+    return c
+
+
+def chan_recv(ex, st, fr, ins, ch):
+    if not isinstance(ch, Chan):
+        raise PathEnd('panic', 'receive from nil channel blocks forever at %s' % ins.get('pos'))
+    cev(st, 'recv', ch.cid, pos=ins.get('pos'))
+    ex.setreg(fr, ins, (Struct([]), z3.BoolVal(False)) if ins.get('commaok') else Struct([]))
+
+
+def chan_close(ex, st, ch, ins):
+    if not isinstance(ch, Chan):
+        raise PathEnd('panic', 'close of nil channel at %s' % (ins or {}).get('pos'))
+    cev(st, 'close', ch.cid, pos=(ins or {}).get('pos'))
+
+
+def go_stmt(ex, st, fn, args, ins):
+    ths = list(st.heap.get(('threads',), ()))
+    child = len(ths) + 1
+    ths.append((child, fn, args, ins.get('pos')))
+    st.heap[('threads',)] = tuple(ths)
+    cev(st, 'go', child, pos=ins.get('pos'))
+
+
+ERR_SERVER_CLOSED = Opaque('error', msg=None, server_closed=True)
+
+
+def srv_id(p):
+    return ('srv', p.obj, p.path)
+
+
+def http_ListenAndServe(ex, st, args, ctx):
+    used('(*http.Server).ListenAndServe: contract automaton (1) return ErrServerClosed if shutdown already began (2) bind (3) track listener - fails and releases the socket if shutdown began meanwhile (4) serve until shutdown; returns ErrServerClosed')
+    cev(st, 'las', srv_id(args[0]), pos=ctx['pos'])
+    return ERR_SERVER_CLOSED
+
+
+def http_Shutdown(ex, st, args, ctx):
+    used('(*http.Server).Shutdown(ctx): (a) sets the shutting-down flag and closes the tracked listeners (b) returns when no request is in flight (context.Background: waits indefinitely; a deadline context may return early with an error)')
+    ctxv = args[1]
+    kind = getattr(ctxv.v if isinstance(ctxv, Iface) else ctxv, 'ctxkind', 'unknown')
+    cev(st, 'shutdown', srv_id(args[0]), kind, pos=ctx['pos'])
+    if kind == 'background':
+        return NIL
+    c = z3.Bool(ex.newsym('shutdown_deadline_hit'))
+    return Forks([(c, Iface(-1, Opaque('error', msg=S('context deadline exceeded'), origin=ctx['pos'])), None), (z3.Not(c), NIL, None)])
+
+
+def http_Close(ex, st, args, ctx):
+    used('(*http.Server).Close: closes listeners and all connections immediately')
+    cev(st, 'srvclose', srv_id(args[0]), pos=ctx['pos'])
+    return NIL
+
+
+def ctx_Background(ex, st, args, ctx):
+    return Opaque('context', ctxkind='background')
+
+
+def ctx_WithTimeout(ex, st, args, ctx):
+    return (Opaque('context', ctxkind='deadline'), Func('verif:noop'))
+
+
+def ext_any(ex, st, args, ctx):
+    """calls into libraries that only build objects (prometheus, promhttp, dd-trace, net/http mux): opaque result tagged with the callee"""
+    st.events.append(('ext', ctx['name'], tuple(args)))
+    return Opaque('ext', callee=ctx['name'], args=tuple(args), oid=new_oid())
+
+
+BASE.update({'chan:make': chan_make, 'chan:recv': chan_recv, 'chan:close': chan_close, 'go': go_stmt,
+             '(*net/http.Server).ListenAndServe': http_ListenAndServe, '(*net/http.Server).Shutdown': http_Shutdown, '(*net/http.Server).Close': http_Close,
+             'context.Background': ctx_Background, 'context.TODO': ctx_Background, 'context.WithTimeout': ctx_WithTimeout, 'verif:noop': lambda ex, st, a, c: None,
+             'global:net/http.ErrServerClosed': lambda ex, st: ERR_SERVER_CLOSED})
+
+
+def ext_prefixes():
+    ps = ['github.com/prometheus/', '(*github.com/prometheus/', '(github.com/prometheus/', 'gopkg.in/DataDog/', '(*gopkg.in/DataDog/', 'net/http.NewServeMux', '(*net/http.ServeMux).',
+          'net/http.Handle', 'opaque:ext.']
+    return [(p, ext_any) for p in ps]
